@@ -10,6 +10,7 @@ package c14
 
 import (
 	"fmt"
+	"math"
 	"slices"
 	"strconv"
 	"strings"
@@ -59,7 +60,7 @@ func (w win) of(arena []int) []int {
 // locate describes a returned slice relative to the arena: `win off len [..]` when its data
 // pointer lies inside the arena's allocation (this includes the spare capacity behind the len
 // of any source window), `fresh [..]` otherwise; empty results are `nil` / `e`.
-func locate(r, arena []int) string {
+func locate[R, T any](r []R, shown string, arena []T) string {
 	if len(r) == 0 {
 		if r == nil {
 			return "nil"
@@ -68,28 +69,131 @@ func locate(r, arena []int) string {
 	}
 	p := uintptr(unsafe.Pointer(unsafe.SliceData(r)))
 	base := uintptr(unsafe.Pointer(unsafe.SliceData(arena)))
-	sz := unsafe.Sizeof(int(0))
+	var z T
+	sz := unsafe.Sizeof(z)
 	if len(arena) > 0 && p >= base && p < base+uintptr(cap(arena))*sz {
-		return fmt.Sprintf("win %d %d %s", (p-base)/sz, len(r), showInts(r))
+		return fmt.Sprintf("win %d %d %s", (p-base)/sz, len(r), shown)
 	}
-	return "fresh " + showInts(r)
+	return "fresh " + shown
+}
+
+// codec: how the cells of an arena of element type T are written in the protocol (as ints).
+type codec[T comparable] struct {
+	dec func(int) T
+	enc func(T) int
+}
+
+const nanCode, negZeroCode = 1000000, 1000001
+
+func decF(c int) float64 {
+	switch c {
+	case nanCode:
+		return math.NaN()
+	case negZeroCode:
+		return math.Copysign(0, -1)
+	}
+	return float64(c)
+}
+
+func encF(f float64) int {
+	switch {
+	case f != f:
+		return nanCode
+	case f == 0 && math.Signbit(f):
+		return negZeroCode
+	}
+	return int(f)
+}
+
+// fs: a struct element type whose == is not reflexive either (it contains a float64)
+type fs struct {
+	F   float64
+	Tag int
+}
+
+var (
+	intCodec   = codec[int]{func(c int) int { return c }, func(v int) int { return v }}
+	floatCodec = codec[float64]{decF, encF}
+	fsCodec    = codec[fs]{func(c int) fs { return fs{decF(c), 0} }, func(v fs) int { return encF(v.F) }}
+)
+
+func (cd codec[T]) decAll(cs []int) []T {
+	r := make([]T, len(cs))
+	for i, c := range cs {
+		r[i] = cd.dec(c)
+	}
+	return r
+}
+
+func (cd codec[T]) show(vs []T) string {
+	cs := make([]int, len(vs))
+	for i, v := range vs {
+		cs[i] = cd.enc(v)
+	}
+	return showInts(cs)
+}
+
+func winOf[T any](w win, arena []T) []T {
+	if w.isNil {
+		return nil
+	}
+	return arena[w.off : w.off+w.l : w.off+w.c]
 }
 
 type ledgerEntry struct{ res, deep []int }
 
+// implArena dispatches on the header: `arena` = []int; `arenaF` = the SAME case run with element
+// type float64 and then with struct{F float64; Tag int} (both must answer alike).
 func implArena(c core.Case) []string {
-	var arena []int
-	var ledger []ledgerEntry
+	hdr := core.Toks(c.Lines[0])
+	if hdr[2] == "arenaF" {
+		a := implArenaT(c, "arenaF", floatCodec)
+		b := implArenaT(c, "arenaF", fsCodec)
+		for i := range a {
+			if i < len(b) && a[i] != b[i] {
+				a[i] += " STRUCT-DIFFERS " + b[i]
+			}
+		}
+		return a
+	}
+	return implArenaT(c, "arena", intCodec)
+}
+
+type ledgerEntryT[T any] struct{ res, deep []T }
+
+func implArenaT[T comparable](c core.Case, hname string, cd codec[T]) []string {
+	var arena []T
+	var ledger []ledgerEntryT[T]
+	var ledgerI []ledgerEntry
+	showInts := func(vs []T) string { return cd.show(vs) }
+	accFn := func(acc []int) func(T) bool {
+		return func(v T) bool { return slices.Contains(acc, cd.enc(v)) }
+	}
+	checkLedger := func() string {
+		for k, e := range ledger {
+			for i := range e.res {
+				if cd.enc(e.res[i]) != cd.enc(e.deep[i]) {
+					return fmt.Sprintf(" LEDGER-CHANGED result#%d was %s is %s", k, cd.show(e.deep), cd.show(e.res))
+				}
+			}
+		}
+		for k, e := range ledgerI {
+			if !slices.Equal(e.res, e.deep) {
+				return fmt.Sprintf(" LEDGER-CHANGED values-result#%d", k)
+			}
+		}
+		return ""
+	}
 	return core.RunOps(c,
 		func(h []string) string {
-			if len(h) < 2 || h[0] != "arena" {
+			if len(h) < 2 || h[0] != hname {
 				return "bad-op"
 			}
 			vs, ok := parseInts(h[1:])
 			if !ok {
 				return "bad-op"
 			}
-			arena = vs
+			arena = cd.decAll(vs)
 			return "ok"
 		},
 		func(t []string) string {
@@ -119,25 +223,47 @@ func implArena(c core.Case) []string {
 			} else if len(gs) != 1 {
 				return "bad-op"
 			}
-			var r []int
+			var r []T
 			extra := ""
 			switch h[0] {
+			case "equal":
+				ws, ok := wins(h[1:], false)
+				if !ok || len(ws) != 2 || len(gs) != 1 {
+					return "bad-op"
+				}
+				return strconv.FormatBool(slicez.Equal(winOf(ws[0], arena), winOf(ws[1], arena))) + " | " + showInts(arena) + checkLedger()
+			case "index", "contains":
+				if len(h) != 3 || len(gs) != 1 {
+					return "bad-op"
+				}
+				vc, e1 := strconv.Atoi(h[1])
+				ws, ok := wins(h[2:], false)
+				if e1 != nil || !ok {
+					return "bad-op"
+				}
+				var res string
+				if h[0] == "index" {
+					res = strconv.Itoa(slicez.Index(winOf(ws[0], arena), cd.dec(vc)))
+				} else {
+					res = strconv.FormatBool(slicez.Contains(winOf(ws[0], arena), cd.dec(vc)))
+				}
+				return res + " | " + showInts(arena) + checkLedger()
 			case "diff", "intersect":
 				ws, ok := wins(h[1:], true)
 				if !ok || len(ws) != 3 || len(gs) != 1 {
 					return "bad-op"
 				}
 				if h[0] == "diff" {
-					r = slicez.Diff(ws[0].of(arena), ws[1].of(arena), ws[2].of(arena))
+					r = slicez.Diff(winOf(ws[0], arena), winOf(ws[1], arena), winOf(ws[2], arena))
 				} else {
-					r = slicez.Intersect(ws[0].of(arena), ws[1].of(arena), ws[2].of(arena))
+					r = slicez.Intersect(winOf(ws[0], arena), winOf(ws[1], arena), winOf(ws[2], arena))
 				}
 			case "unique":
 				ws, ok := wins(h[1:], true)
 				if !ok || len(ws) != 2 || len(gs) != 1 {
 					return "bad-op"
 				}
-				r = slicez.Unique(ws[0].of(arena), ws[1].of(arena))
+				r = slicez.Unique(winOf(ws[0], arena), winOf(ws[1], arena))
 			case "uniquekey", "uniquekeyip":
 				if len(h) < 3 || len(gs) != 1 {
 					return "bad-op"
@@ -146,48 +272,48 @@ func implArena(c core.Case) []string {
 				if err != nil || k == 0 {
 					return "bad-op"
 				}
-				key := func(v int) int { return v % k }
+				key := func(v T) int { return cd.enc(v) % k }
 				if h[0] == "uniquekey" {
 					ws, ok := wins(h[2:], true)
 					if !ok || len(ws) != 2 {
 						return "bad-op"
 					}
-					r = slicez.UniqueByKey(ws[0].of(arena), ws[1].of(arena), key)
+					r = slicez.UniqueByKey(winOf(ws[0], arena), winOf(ws[1], arena), key)
 				} else {
 					ws, ok := wins(h[2:], false)
 					if !ok || len(ws) != 1 {
 						return "bad-op"
 					}
-					r = slicez.UniqueByKeyInPlace(ws[0].of(arena), key)
+					r = slicez.UniqueByKeyInPlace(winOf(ws[0], arena), key)
 				}
 			case "filter":
 				ws, ok := wins(h[1:], true)
 				if !ok || len(ws) != 2 || len(gs) != 2 {
 					return "bad-op"
 				}
-				r = slicez.Filter(ws[0].of(arena), ws[1].of(arena), accFn(acc))
+				r = slicez.Filter(winOf(ws[0], arena), winOf(ws[1], arena), accFn(acc))
 			case "diffip", "intersectip":
 				ws, ok := wins(h[1:], false)
 				if !ok || len(ws) != 2 || len(gs) != 1 {
 					return "bad-op"
 				}
 				if h[0] == "diffip" {
-					r = slicez.DiffInPlaceFirst(ws[0].of(arena), ws[1].of(arena))
+					r = slicez.DiffInPlaceFirst(winOf(ws[0], arena), winOf(ws[1], arena))
 				} else {
-					r = slicez.IntersectInPlaceFirst(ws[0].of(arena), ws[1].of(arena))
+					r = slicez.IntersectInPlaceFirst(winOf(ws[0], arena), winOf(ws[1], arena))
 				}
 			case "uniqueip":
 				ws, ok := wins(h[1:], false)
 				if !ok || len(ws) != 1 || len(gs) != 1 {
 					return "bad-op"
 				}
-				r = slicez.UniqueInPlace(ws[0].of(arena))
+				r = slicez.UniqueInPlace(winOf(ws[0], arena))
 			case "filterip":
 				ws, ok := wins(h[1:], false)
 				if !ok || len(ws) != 1 || len(gs) != 2 {
 					return "bad-op"
 				}
-				r = slicez.FilterInPlace(ws[0].of(arena), accFn(acc))
+				r = slicez.FilterInPlace(winOf(ws[0], arena), accFn(acc))
 			case "values":
 				if len(h) < 2 || len(gs) != 1 {
 					return "bad-op"
@@ -197,11 +323,15 @@ func implArena(c core.Case) []string {
 				if e1 != nil || !ok {
 					return "bad-op"
 				}
-				ss := make([][]int, len(ws))
+				ss := make([][]T, len(ws))
 				for i, w := range ws {
-					ss[i] = w.of(arena)
+					ss[i] = winOf(w, arena)
 				}
-				r = slicez.Values(func(v int) int { return v * k }, ss...)
+				ri := slicez.Values(func(v T) int { return cd.enc(v) * k }, ss...)
+				loc := locate(ri, showIntsPlain(ri), arena)
+				out := loc + " | " + showInts(arena) + checkLedger()
+				ledgerI = append(ledgerI, ledgerEntry{ri, append([]int(nil), ri...)})
+				return out
 			case "copy", "subslice":
 				if len(h) != 4 || len(gs) != 1 {
 					return "bad-op"
@@ -213,9 +343,9 @@ func implArena(c core.Case) []string {
 					return "bad-op"
 				}
 				if h[0] == "copy" {
-					r = slicez.Copy(ws[0].of(arena), a, b)
+					r = slicez.Copy(winOf(ws[0], arena), a, b)
 				} else {
-					r = slicez.SubSlice(ws[0].of(arena), a, b)
+					r = slicez.SubSlice(winOf(ws[0], arena), a, b)
 				}
 			case "remove":
 				if len(h) != 3 || len(gs) != 1 {
@@ -226,38 +356,28 @@ func implArena(c core.Case) []string {
 				if e1 != nil || !ok {
 					return "bad-op"
 				}
-				var v int
+				var v T
 				var okk bool
-				r, v, okk = slicez.Remove(ws[0].of(arena), i)
-				extra = fmt.Sprintf(" %d %v", v, okk)
+				r, v, okk = slicez.Remove(winOf(ws[0], arena), i)
+				extra = fmt.Sprintf(" %d %v", cd.enc(v), okk)
 			case "appendsrc": // the caller appends to a source slice afterwards
 				ws, ok := wins(h[1:], false)
 				if !ok || len(ws) != 1 || len(gs) != 2 {
 					return "bad-op"
 				}
-				_ = append(ws[0].of(arena), acc...)
+				_ = append(winOf(ws[0], arena), cd.decAll(acc)...)
 				out := "ok | " + showInts(arena)
-				return out + checkLedger(ledger)
+				return out + checkLedger()
 			default:
 				return "bad-op"
 			}
-			loc := locate(r, arena)
-			out := loc + extra + " | " + showInts(arena) + checkLedger(ledger)
+			loc := locate(r, showInts(r), arena)
+			out := loc + extra + " | " + showInts(arena) + checkLedger()
 			if strings.HasPrefix(loc, "fresh") {
-				ledger = append(ledger, ledgerEntry{r, append([]int(nil), r...)})
+				ledger = append(ledger, ledgerEntryT[T]{r, append([]T(nil), r...)})
 			}
 			return out
 		})
-}
-
-// checkLedger: has any earlier fresh result changed since it was returned?
-func checkLedger(ledger []ledgerEntry) string {
-	for k, e := range ledger {
-		if !slices.Equal(e.res, e.deep) {
-			return fmt.Sprintf(" LEDGER-CHANGED result#%d was %s is %s", k, showInts(e.deep), showInts(e.res))
-		}
-	}
-	return ""
 }
 
 // ---------------------------------------------------------------- generator
@@ -269,14 +389,23 @@ func genArena(r *core.Rand) core.Case {
 	if r.Chance(30) {
 		hi = 2
 	}
+	float := r.Chance(35) // element type float64 / struct with a float: NaN and ±0 among the cells
 	for i := range arena {
-		if r.Chance(75) {
+		switch {
+		case float && r.Chance(22):
+			arena[i] = nanCode
+		case float && r.Chance(15):
+			arena[i] = negZeroCode
+		case r.Chance(75):
 			arena[i] = r.Range(0, hi)
-		} else {
+		default:
 			arena[i] = 100 + i // canary-like cell: unique, shows where stray writes land
 		}
 	}
 	hdr := "@ C14 arena"
+	if float {
+		hdr = "@ C14 arenaF"
+	}
 	for _, v := range arena {
 		hdr += " " + strconv.Itoa(v)
 	}
@@ -368,7 +497,13 @@ func genArena(r *core.Rand) core.Case {
 	for i := 0; i < ops; i++ {
 		s1 := srcWin()
 		s2 := rel(s1)
-		switch r.Pick(8, 8, 6, 5, 6, 14, 14, 5, 4, 5, 12, 4, 4, 5, 5, 0) {
+		cellVal := func() int { // a value to search for: mostly one that occurs (NaN, ±0 included)
+			if r.Chance(80) {
+				return arena[r.Intn(n)]
+			}
+			return []int{0, negZeroCode, nanCode, 3}[r.Intn(4)]
+		}
+		switch r.Pick(8, 8, 6, 5, 6, 14, 14, 5, 4, 5, 12, 4, 4, 5, 5, 9, 6) {
 		case 0:
 			emit("diff %s %s %s", dstWin(s1, s2), s1, s2)
 		case 1:
@@ -409,6 +544,21 @@ func genArena(r *core.Rand) core.Case {
 			}
 		case 13:
 			emit("appendsrc %s ; %d", s1, 70+i)
+		case 15: // Equal: the SAME window twice, the same cells with another capacity, a copy elsewhere, any other window
+			switch r.Pick(35, 20, 45) {
+			case 0:
+				emit("equal %s %s", s1, s1)
+			case 1:
+				emit("equal %s %s", s1, win{off: s1.off, l: s1.l, c: s1.l})
+			default:
+				emit("equal %s %s", s1, mk(s2.off, s1.l, 0))
+			}
+		case 16:
+			if r.Bool() {
+				emit("index %d %s", cellVal(), s1)
+			} else {
+				emit("contains %d %s", cellVal(), s1)
+			}
 		}
 	}
 	return core.Case{Lines: lines, Tag: "arena"}
@@ -476,11 +626,72 @@ func defClampCopy(n, a, l int) (int, int) { // Copy: [lo,hi) or empty
 	return a, a + l
 }
 
+// eqCode: the element type's == on coded cells (fl = float64 / struct holding one: NaN equals
+// nothing, -0 equals +0) — written from the Go spec, independent of the Lean model.
+func eqCode(fl bool, a, b int) bool {
+	if !fl {
+		return a == b
+	}
+	if a == nanCode || b == nanCode {
+		return false
+	}
+	if a == negZeroCode {
+		a = 0
+	}
+	if b == negZeroCode {
+		b = 0
+	}
+	return a == b
+}
+
+func anyEq(fl bool, m []int, v int) bool {
+	for _, x := range m {
+		if eqCode(fl, v, x) {
+			return true
+		}
+	}
+	return false
+}
+
+// defSelectE: the definitions with the element type's == (map semantics: a NaN key is never
+// found and every NaN is a new key; Unique's keys are the elements, UniqueByKey's are ints)
+func defSelectE(fl bool, op string, k int, s1, s2 []int) []int {
+	var r, seen []int
+	for _, v := range s1 {
+		switch op {
+		case "diff":
+			if !anyEq(fl, s2, v) {
+				r = append(r, v)
+			}
+		case "intersect":
+			if anyEq(fl, s2, v) {
+				r = append(r, v)
+			}
+		case "filter":
+			if slices.Contains(s2, v) { // the harness predicate: membership of the CODE in acc
+				r = append(r, v)
+			}
+		case "unique":
+			if !anyEq(fl, seen, v) {
+				seen = append(seen, v)
+				r = append(r, v)
+			}
+		case "uniquekey":
+			if !slices.Contains(seen, v%k) {
+				seen = append(seen, v%k)
+				r = append(r, v)
+			}
+		}
+	}
+	return r
+}
+
 func isPerm(a, b []int) bool { return slices.Equal(sortedCopy(a), sortedCopy(b)) }
 
 // checkArena evaluates the definitions on the arena as it was before each call (taken from the
 // header / the previous answer) — independent of the Lean model.
 func checkArena(c core.Case, out []string) *core.Failure {
+	fl := core.Toks(c.Lines[0])[2] == "arenaF"
 	before, _ := parseInts(core.Toks(c.Lines[0])[3:])
 	for i := 1; i < len(c.Lines); i++ {
 		line, o := c.Lines[i], out[i]
@@ -492,6 +703,9 @@ func checkArena(c core.Case, out []string) *core.Failure {
 		}
 		if o == "panic" || o == "dead" {
 			return fail("panic", "no panic for any layout of the arguments")
+		}
+		if k := strings.Index(o, " STRUCT-DIFFERS"); k >= 0 {
+			return fail("elem-type-dependent", "the same answer for float64 elements and for struct{F float64; Tag int} elements")
 		}
 		if k := strings.Index(o, " LEDGER-CHANGED"); k >= 0 {
 			return fail("result-changed", "a slice returned by an earlier call keeps its content (fresh memory): "+o[k+1:])
@@ -533,6 +747,38 @@ func checkArena(c core.Case, out []string) *core.Failure {
 			before = after
 			continue
 		}
+		if h[0] == "equal" || h[0] == "index" || h[0] == "contains" {
+			var want string
+			if h[0] == "equal" {
+				a, b := w(h[1]).of(before), w(h[2]).of(before)
+				eq := len(a) == len(b)
+				for k := 0; eq && k < len(a); k++ {
+					eq = eqCode(fl, a[k], b[k]) // element-wise ==, wherever the arguments live
+				}
+				want = strconv.FormatBool(eq)
+			} else {
+				v, _ := strconv.Atoi(h[1])
+				idx := -1
+				for k, x := range w(h[2]).of(before) {
+					if eqCode(fl, v, x) {
+						idx = k
+						break
+					}
+				}
+				want = strconv.Itoa(idx)
+				if h[0] == "contains" {
+					want = strconv.FormatBool(idx >= 0)
+				}
+			}
+			if strings.TrimSpace(resPart) != want {
+				return fail(h[0]+"-elem-eq", want+" (element-wise ==; NaN != NaN, -0 == +0)")
+			}
+			if !unchangedOutside(0, 0) {
+				return fail("stray-write", "the arena is only read")
+			}
+			before = after
+			continue
+		}
 		res, rest, ok3 := parseARes(resPart)
 		if !ok3 {
 			return fail("arena-format", "a result description")
@@ -552,7 +798,7 @@ func checkArena(c core.Case, out []string) *core.Failure {
 			case "filter":
 				s2c = acc
 			}
-			want := defSelect(op, k, s1.of(before), s2c)
+			want := defSelectE(fl, op, k, s1.of(before), s2c)
 			// layouts in which the result is defined: dst nil, dst's capacity region disjoint from
 			// the cells of s1, or dst starting at or before s1 (the write cursor never overtakes the
 			// read cursor: "also when dst is the prefix s[:0] of an input")
@@ -584,7 +830,7 @@ func checkArena(c core.Case, out []string) *core.Failure {
 			case "filter":
 				s2c = acc
 			}
-			want := defSelect(op, k, s1.of(before), s2c)
+			want := defSelectE(fl, op, k, s1.of(before), s2c)
 			if op == "diff" && (s1.l == 0 || len(s2c) == 0) {
 				want = s1.of(before)
 			}
@@ -662,6 +908,9 @@ func checkArena(c core.Case, out []string) *core.Failure {
 
 func classifyArena(c core.Case, out []string) []string {
 	var ls []string
+	if core.Toks(c.Lines[0])[2] == "arenaF" {
+		ls = append(ls, "arena of float64 / struct{float} elements")
+	}
 	n := len(core.Toks(c.Lines[0])) - 3
 	for i, l := range c.Lines[1:] {
 		gs := groups(core.Toks(l))
@@ -695,6 +944,13 @@ func classifyArena(c core.Case, out []string) []string {
 				dr := win{off: d.off, l: d.c}
 				ls = append(ls, "arena "+h[0]+": dst region "+relOf(s2, dr)+" s2, "+relOf(s1, dr)+" s1")
 			}
+		case "equal":
+			a, b := w(h[1]), w(h[2])
+			lab := "arena equal: different windows"
+			if a.off == b.off && a.l == b.l {
+				lab = "arena equal: the SAME window twice"
+			}
+			ls = append(ls, lab+" -> "+strings.Fields(o)[0])
 		case "copy":
 			s := w(h[3])
 			if s.c > s.l {
